@@ -226,13 +226,11 @@ func ruleOpTables(p *Program, r *Run, only string) {
 	for k := range explicit {
 		handled[k] = "explicit case"
 	}
-	bo := p.PkgVarValue(pql, "binaryOps").(*ast.CompositeLit)
-	boVal := map[string]string{}
-	for _, el := range bo.Elts {
-		kv := el.(*ast.KeyValueExpr)
-		k := constName(info, kv.Key)
-		v, _ := constString(info, kv.Value)
-		boVal[k] = v
+	boVal, boPos, _ := p.binaryOpTable()
+	if boVal == nil {
+		fatalf("anchor not found: the table of binary operators that translate one-to-one (var binaryOps, or a function TokenKind -> (string, bool))")
+	}
+	for k := range boVal {
 		if _, ok := handled[k]; !ok {
 			handled[k] = "binaryOps"
 		}
@@ -282,7 +280,7 @@ func ruleOpTables(p *Program, r *Run, only string) {
 		sort.Strings(bks)
 		for _, k := range bks {
 			want, doc := docBinarySQL[k]
-			r.Check(doc && strings.EqualFold(strings.TrimSpace(boVal[k]), want), "C01/optable", fmt.Sprintf("pql.binaryOps[%s]", k), p.Pos(bo.Pos()), fmt.Sprintf("%s is spelled %q in SQL", k, want), fmt.Sprintf("operator %s is translated to %q; the SQL spelling of the same operator is %q", k, boVal[k], want))
+			r.Check(doc && strings.EqualFold(strings.TrimSpace(boVal[k]), want), "C01/optable", fmt.Sprintf("pql.binaryOps[%s]", k), p.Pos(boPos), fmt.Sprintf("%s is spelled %q in SQL", k, want), fmt.Sprintf("operator %s is translated to %q; the SQL spelling of the same operator is %q", k, boVal[k], want))
 		}
 		ruleC01OpShapes(p, r)
 		r.Floor("C01/optable", 30)
@@ -915,4 +913,109 @@ func (p *Program) kindsHandled(pkg *packages.Package, fd *ast.FuncDecl, typ stri
 	e := NewEngine(p, pkg, fd, c)
 	e.Run(nil)
 	return c.handled
+}
+
+// binaryOpTable: the operators that are written as `left OP right` with a fixed SQL spelling - the package-level
+// map[parser.TokenKind]string, or a function func(parser.TokenKind) (string, bool) that switches on its parameter
+// and returns a constant for each case. Returns operator constant name -> SQL text, the position of the table and
+// (for the function form) the function.
+func (p *Program) binaryOpTable() (map[string]string, token.Pos, *types.Func) {
+	if !p.binOpDone {
+		p.binOpDone = true
+		p.binOpVals, p.binOpPos, p.binOpFn = p.findBinaryOpTable()
+	}
+	return p.binOpVals, p.binOpPos, p.binOpFn
+}
+
+func (p *Program) findBinaryOpTable() (map[string]string, token.Pos, *types.Func) {
+	pkg := p.PQL
+	info := pkg.TypesInfo
+	for _, f := range pkg.Syntax {
+		for _, d := range f.Decls {
+			gd, ok := d.(*ast.GenDecl)
+			if !ok || gd.Tok != token.VAR {
+				continue
+			}
+			for _, sp := range gd.Specs {
+				vs := sp.(*ast.ValueSpec)
+				for i, n := range vs.Names {
+					if i >= len(vs.Values) || TypeStr(info.TypeOf(n)) != "map[parser.TokenKind]string" {
+						continue
+					}
+					cl, ok := ast.Unparen(vs.Values[i]).(*ast.CompositeLit)
+					if !ok {
+						continue
+					}
+					got := map[string]string{}
+					for _, el := range cl.Elts {
+						if kv, ok := el.(*ast.KeyValueExpr); ok {
+							if v, isS := constString(info, kv.Value); isS {
+								got[constName(info, kv.Key)] = v
+							}
+						}
+					}
+					if len(got) > 0 {
+						return got, cl.Pos(), nil
+					}
+				}
+			}
+		}
+	}
+	for _, fd := range AllFuncs(pkg) {
+		fn := FuncObj(pkg, fd)
+		if fn == nil {
+			continue
+		}
+		sig := fn.Type().(*types.Signature)
+		if sig.Recv() != nil || sig.Params().Len() != 1 || TypeStr(sig.Params().At(0).Type()) != "parser.TokenKind" || sig.Results().Len() != 2 ||
+			TypeStr(sig.Results().At(0).Type()) != "string" || TypeStr(sig.Results().At(1).Type()) != "bool" {
+			continue
+		}
+		if len(fd.Type.Params.List) != 1 || len(fd.Type.Params.List[0].Names) != 1 || len(fd.Body.List) != 1 {
+			continue
+		}
+		param := info.Defs[fd.Type.Params.List[0].Names[0]]
+		sw, ok := fd.Body.List[0].(*ast.SwitchStmt)
+		if !ok || sw.Init != nil || sw.Tag == nil || objOf(info, sw.Tag) != param {
+			continue
+		}
+		got := map[string]string{}
+		okShape := true
+		for _, cs := range sw.Body.List {
+			cc := cs.(*ast.CaseClause)
+			if len(cc.Body) != 1 {
+				okShape = false
+				break
+			}
+			ret, isRet := cc.Body[0].(*ast.ReturnStmt)
+			if !isRet || len(ret.Results) != 2 {
+				okShape = false
+				break
+			}
+			found := constOf(info, ret.Results[1])
+			if cc.List == nil {
+				// the miss: ("", false)
+				if found == nil || found.String() != "false" {
+					okShape = false
+				}
+				continue
+			}
+			v, isS := constString(info, ret.Results[0])
+			if !isS || found == nil || found.String() != "true" {
+				okShape = false
+				break
+			}
+			for _, ce := range cc.List {
+				k := constName(info, ce)
+				if k == "" {
+					okShape = false
+				}
+				got[k] = v
+			}
+		}
+		if okShape && len(got) > 0 {
+			return got, fd.Pos(), fn
+		}
+	}
+	return nil, token.NoPos, nil
 }
